@@ -21,6 +21,7 @@ pub fn udp_socket(
         use std::os::unix::prelude::FromRawFd;
 
         tracing::trace!("udp_socket local: {:?} remote: {:?}", local, remote);
+        let ephemeral = local.port() == 0;
         let local: SockaddrStorage = local.into();
         let remote: Option<SockaddrStorage> =
             remote.filter(|x| !x.ip().is_unspecified()).map(Into::into);
@@ -30,7 +31,12 @@ pub fn udp_socket(
             SockFlag::empty(),
             SockProtocol::Udp,
         )?;
-        setsockopt(fd, ReuseAddr, &true)?;
+        // address sharing is what lets a session socket sit on the listener's own address. With port 0 it
+        // would let the kernel hand the same ephemeral port to two sockets that both ask for sharing: two
+        // sessions talking to one destination then own the same 4-tuple and one gets the other's replies.
+        if !ephemeral {
+            setsockopt(fd, ReuseAddr, &true)?;
+        }
         if transparent {
             #[cfg(target_os = "linux")]
             {
